@@ -1,11 +1,20 @@
 import JSL.Inv.Init
 import JSL.Props.Example
+import JSL.Inv.Discipline
 
 /-!
 # C08 — buffers never exceed capacity; ordered buffers release in discipline order
 
 Table part (regenerated from the code on every run) and the local contracts of the three buffer
 primitives through which every move goes.  The lift to all executions is in `JSL.Inv`.
+
+Discipline over whole episodes (`Inv/StoreStep.lean`, `Inv/DiscGuard.lean`, `Inv/Calls.lean`,
+`Inv/Discipline.lean`; `EnvCall σ tr σ'` = "transition `tr` is applied to state `σ` with result `σ'`
+somewhere inside `reset` or a `step` of an episode"):
+**`c08_arrivals_join_at_the_back`**, **`c08_fifo_releases_oldest_to_agv`** (FIFO / DUMMY post- and
+stand-alone buffers), **`c08_machine_takes_release_job`** (FIFO / DUMMY: first, LIFO: last element of
+the pre-buffer – whether created by the timed mechanism or accepted by the agent).  For LIFO buffers
+emptied by AGVs the property is false (recorded finding).
 -/
 
 namespace JSL
@@ -98,5 +107,49 @@ theorem c08_every_buffer_configured {orc : Oracle} {inst : Instance} {cfg : SMCo
   exact ⟨c, hc, e⟩
 
 example : initOKB Ex.inst Ex.s0 = true := Ex.initOK
+
+/-- **Arriving jobs join at the back**: every transition applied during an episode either leaves all
+buffer contents as they are, or takes exactly one job out of one buffer (the others keep their
+order) and appends it at the back of another; no other buffer changes. -/
+theorem c08_arrivals_join_at_the_back {orc : Oracle} {inst : Instance} {ec : EnvCfg} {st : RewardStatic} {s0 : State}
+    (hst : Start orc inst s0) {σ σ' : State} {tr : Transition} (hc : EnvCall orc inst ec st s0 σ tr σ') :
+    (∀ i, storeAt σ' i = storeAt σ i) ∨
+    ∃ x a b, a ≠ b ∧ x ∈ storeAt σ a ∧ storeAt σ' a = (storeAt σ a).filter (· != x) ∧
+      storeAt σ' b = storeAt σ b ++ [x] ∧ ∀ i, i ≠ a → i ≠ b → storeAt σ' i = storeAt σ i :=
+  disc_env_arrivals_join_back hst hc
+
+/-- **A FIFO (or DUMMY) buffer releases only its oldest job to an AGV**: whenever a pickup (→ TRANSIT)
+is applied during an episode, the job leaves a post-buffer or stand-alone buffer `i` for the back of
+the AGV's buffer, and if `i` is configured FIFO or DUMMY the job is the first element of `i` in the
+state right before the application. -/
+theorem c08_fifo_releases_oldest_to_agv {orc : Oracle} {inst : Instance} {ec : EnvCfg} {st : RewardStatic} {s0 : State}
+    (hst : Start orc inst s0) {σ σ' : State} {tr : Transition} (hc : EnvCall orc inst ec st s0 σ tr σ')
+    (hn : tr.new = .t .transit) :
+    ∃ t ∈ σ.transports, ∃ x i, tr.comp = .t t.id ∧ tr.job = some x ∧ pickupBufferKind inst i = true ∧
+      x ∈ storeAt σ i ∧ storeAt σ' i = (storeAt σ i).filter (· != x) ∧
+      storeAt σ' t.buffer.id = storeAt σ t.buffer.id ++ [x] ∧
+      ∀ bc ∈ allBufCfgs inst, bc.id = i → (bc.type = .fifo ∨ bc.type = .dummy) → storeAt σ i = x :: storeAt σ' i :=
+  disc_agv_takes_front hst hc hn
+
+/-- **The machine behind a pre-buffer takes the job the discipline names**: whenever IDLE → SETUP is
+applied during an episode – timed or accepted by the agent – the job leaves the machine's pre-buffer,
+and it is its first element if the pre-buffer is FIFO or DUMMY, its last if LIFO. -/
+theorem c08_machine_takes_release_job {orc : Oracle} {inst : Instance} {ec : EnvCfg} {st : RewardStatic} {s0 : State}
+    (hst : Start orc inst s0) {σ σ' : State} {tr : Transition} (hc : EnvCall orc inst ec st s0 σ tr σ')
+    (hn : tr.new = .m .setup) :
+    ∃ m ∈ σ.machines, ∃ x, tr.comp = .m m.id ∧ m.st = .idle ∧ tr.job = some x ∧ x ∈ m.pre.store ∧
+      storeAt σ m.pre.id = m.pre.store ∧ storeAt σ' m.pre.id = m.pre.store.filter (· != x) ∧
+      storeAt σ' m.buffer.id = storeAt σ m.buffer.id ++ [x] ∧
+      ∀ bc ∈ allBufCfgs inst, bc.id = m.pre.id →
+        ((bc.type = .fifo ∨ bc.type = .dummy) → m.pre.store.head? = some x) ∧
+        (bc.type = .lifo → m.pre.store.getLast? = some x) :=
+  disc_machine_takes_release_job hst hc hn
+
+/-- every post-state recorded during an episode step is the result of such an application (the
+recorded transitions are covered) -/
+theorem c08_recorded_applications_are_covered {orc : Oracle} {inst : Instance} {ec : EnvCfg} {st : RewardStatic} {s0 : State}
+    {e : EnvState} (he : EnvReach orc inst ec st s0 e) {a : AgentAct} {out : StepOut}
+    (h : envStep orc inst ec st e a = .ok out) : ∀ σ' ∈ out.micro, ∃ σ x, EnvCall orc inst ec st s0 σ x σ' :=
+  envCall_of_step_micro he h
 
 end JSL
